@@ -9,6 +9,7 @@ import (
 	"errors"
 	"fmt"
 	"net/http"
+	"os"
 	"sort"
 	"strings"
 	"sync"
@@ -197,14 +198,19 @@ func manifest(o sysObj) *unstructured.Unstructured {
 // ---------- scripted watcher ----------
 
 type scriptedWatcher struct {
-	ch       chan pollevent.Event
+	ch       chan scriptedEv
 	syncGate chan struct{} // closed to let the sync event out
 	started  chan struct{}
 	once     sync.Once
 }
 
+type scriptedEv struct {
+	e   pollevent.Event
+	ack chan struct{} // closed once the runner has RECEIVED the event
+}
+
 func newScriptedWatcher() *scriptedWatcher {
-	return &scriptedWatcher{ch: make(chan pollevent.Event), syncGate: make(chan struct{}), started: make(chan struct{})}
+	return &scriptedWatcher{ch: make(chan scriptedEv), syncGate: make(chan struct{}), started: make(chan struct{})}
 }
 
 func (w *scriptedWatcher) Watch(ctx context.Context, _ object.ObjMetadataSet, _ watcher.Options) <-chan pollevent.Event {
@@ -224,9 +230,10 @@ func (w *scriptedWatcher) Watch(ctx context.Context, _ object.ObjMetadataSet, _ 
 		}
 		for {
 			select {
-			case e := <-w.ch:
+			case se := <-w.ch:
 				select {
-				case out <- e:
+				case out <- se.e:
+					close(se.ack)
 				case <-ctx.Done():
 					return
 				}
@@ -238,10 +245,19 @@ func (w *scriptedWatcher) Watch(ctx context.Context, _ object.ObjMetadataSet, _ 
 	return out
 }
 
-// send delivers one event to the runner (rendezvous); false if the watcher has been stopped.
+// send delivers one event to the runner and returns once the runner has received it (rendezvous on the runner's
+// select loop); false if the watcher has been stopped.
 func (w *scriptedWatcher) send(e pollevent.Event, stop <-chan struct{}) bool {
+	se := scriptedEv{e: e, ack: make(chan struct{})}
 	select {
-	case w.ch <- e:
+	case w.ch <- se:
+	case <-stop:
+		return false
+	case <-time.After(5 * time.Second):
+		return false
+	}
+	select {
+	case <-se.ack:
 		return true
 	case <-stop:
 		return false
@@ -346,6 +362,9 @@ func skipReason(err error) string {
 		return "precondition"
 	case strings.Contains(s, "not found"):
 		return "notfound"
+	}
+	if os.Getenv("VERIF_DEBUG") != "" {
+		return "other: " + s
 	}
 	return "other"
 }
@@ -464,9 +483,12 @@ func runOne(c *fakecluster.Cluster, run sysRun) (out runOut) {
 	}
 	dyn := c.Dynamic()
 	f := &sysFactory{TestFactory: tf, dyn: dyn}
-	restClient := &fake.RESTClient{
-		NegotiatedSerializer: resource.UnstructuredPlusDefaultContentConfig().NegotiatedSerializer,
-		Client:               fake.CreateHTTPClient(func(req *http.Request) (*http.Response, error) { return c.RoundTrip(req) }),
+	clientFor := func(m *meta.RESTMapping) (resource.RESTClient, error) {
+		group := m.Resource.Group
+		return &fake.RESTClient{
+			NegotiatedSerializer: resource.UnstructuredPlusDefaultContentConfig().NegotiatedSerializer,
+			Client:               fake.CreateHTTPClient(func(req *http.Request) (*http.Response, error) { return c.RoundTrip(group, req) }),
+		}, nil
 	}
 	invClient, err := inventory.ClusterClientFactory{StatusPolicy: inventory.StatusPolicyNone}.NewClient(f)
 	if err != nil {
@@ -524,7 +546,7 @@ func runOne(c *fakecluster.Cluster, run sysRun) (out runOut) {
 	var ch <-chan event.Event
 	if run.Kind == "destroy" {
 		d, err := apply.NewDestroyerBuilder().WithFactory(f).WithDynamicClient(dyn).WithRestMapper(mapper).
-			WithUnstructuredClientForMapping(func(*meta.RESTMapping) (resource.RESTClient, error) { return restClient, nil }).
+			WithUnstructuredClientForMapping(clientFor).
 			WithInventoryClient(invClient).WithStatusWatcher(sw).Build()
 		if err != nil {
 			out.Anomaly = "build: " + err.Error()
@@ -534,7 +556,7 @@ func runOne(c *fakecluster.Cluster, run sysRun) (out runOut) {
 			DeletePropagationPolicy: prop, EmitStatusEvents: run.Opts.EmitStatus, ValidationPolicy: vpol})
 	} else {
 		a, err := apply.NewApplierBuilder().WithFactory(f).WithDynamicClient(dyn).WithRestMapper(mapper).
-			WithUnstructuredClientForMapping(func(*meta.RESTMapping) (resource.RESTClient, error) { return restClient, nil }).
+			WithUnstructuredClientForMapping(clientFor).
 			WithInventoryClient(invClient).WithStatusWatcher(sw).Build()
 		if err != nil {
 			out.Anomaly = "build: " + err.Error()
@@ -563,6 +585,22 @@ func runOne(c *fakecluster.Cluster, run sysRun) (out runOut) {
 	// ---- reader + phase driver ----
 	waitIdx := -1
 	var wg sync.WaitGroup
+	// barrier: accepted by the reader loop only between two events, so after a fence (the runner has sent everything the
+	// previous status event caused) + a barrier the bookkeeping below is up to date
+	barrier := make(chan struct{})
+	sync2 := func() bool {
+		if !sw.fence(stop) {
+			return false
+		}
+		select {
+		case barrier <- struct{}{}:
+			return true
+		case <-stop:
+			return false
+		case <-time.After(5 * time.Second):
+			return false
+		}
+	}
 	pending := map[string]map[string]bool{} // wait group -> ids whose last wait event is Pending
 	finished := map[string]chan struct{}{}
 	var groups []event.ActionGroup
@@ -624,7 +662,12 @@ func runOne(c *fakecluster.Cluster, run sysRun) (out runOut) {
 				return false
 			}
 			delivered++
-			return sw.fence(stop)
+			return sync2()
+		}
+		// the group's Started event precedes WaitTask.Start; a fence is accepted only once the runner is back in its
+		// select loop, i.e. after the start events of this phase have been emitted and read
+		if !sync2() {
+			return
 		}
 		for _, id := range g.Identifiers {
 			key := idKey(toJid(id))
@@ -676,6 +719,9 @@ loop:
 				out.Closed = true
 				break loop
 			}
+			if e.Type == event.StatusType && e.StatusEvent.Identifier == fenceID {
+				continue
+			}
 			ce := canonEvent(e)
 			mu.Lock()
 			out.Events = append(out.Events, ce)
@@ -713,6 +759,7 @@ loop:
 					close(fc)
 				}
 			}
+		case <-barrier:
 		case <-timeoutCh:
 			out.Anomaly = "hang: event channel not closed within 20s"
 			cancel()
